@@ -762,7 +762,8 @@ class PlSqlDialect(AnsiSqlDialect):
         elif ansi_type == "int":
             length = sql_ansi_type[1]
             if length > MAX_INTEGER:
-                result = ("number", length, 0)
+                # NOTE: The precision is the number of digits, not the limit itself.
+                result = ("number", len(str(length + 1)), 0)
 
         return result
 
@@ -980,7 +981,8 @@ class TransactSqlDialect(AnsiSqlDialect):
             elif limit <= MAX_BIGINT:
                 result = ("bigint", limit)
             else:
-                result = ("decimal", limit, 0)
+                # NOTE: The precision is the number of digits, not the limit itself.
+                result = ("decimal", len(str(limit + 1)), 0)
         else:
             result = sql_ansi_type
 
@@ -1303,7 +1305,8 @@ class Db2SqlDialect(AnsiSqlDialect):
             elif length <= MAX_BIGINT:
                 result = ("bigint", length)
             else:
-                result = ("decimal", length)
+                # NOTE: The precision is the number of digits, not the limit itself.
+                result = ("decimal", len(str(length + 1)))
         return result
 
     def __str__(self):
